@@ -8,7 +8,7 @@ from wa.interp import eval_expr, Unknown
 from wa import fmtlit, strsym
 from wa.implied import implying_edges
 from wa.loopform import is_range_next, range_bounds
-from .search import GBM, ABS, SEND_INFO, SET_PV, INS_LINE, abs_calls, params_by_type
+from .search import search_const, GBM, ABS, SEND_INFO, SET_PV, INS_LINE, abs_calls, params_by_type
 
 SSI = "engine::send_search_info"
 INFO_RE = re.compile(r"^info pv\{\} depth \{\} nodes \{\} score (cp|mate) \{\} time \{\}$")
@@ -122,8 +122,8 @@ def r18_4(ctx):
     f = ctx.facts
     b = f.body(SSI)
     ctx.note_fn(SSI)
-    mate = f.const_value("engine::MATE_SCORE")
-    pos_inf = f.const_value("engine::POS_INF")
+    mate = search_const(f, "MATE_SCORE")
+    pos_inf = search_const(f, "POS_INF")
     evp = params_by_type(b, "i32")
     if len(evp) != 1:
         raise ShapeNotRecognised("send_search_info(.., eval: i32, ..)")
@@ -275,7 +275,7 @@ def r18_356(ctx):
         ok = upd is not None and b.node_dominates(upd[0], cbb) and (gt[0][1] == upd[0] or b.edge_dominates(gt[0], upd[0]))
         ctx.ob("get_best_move:alpha-raised-with-info", ok, b.where(upd) if upd else b.where(loc),
                "`alpha = evaluation` happens in the same guarded region before the line is printed, so the next line of this depth must beat it")
-        neg_inf = f.const_value("engine::NEG_INF")
+        neg_inf = search_const(f, "NEG_INF")
         for dloc, e in others:
             ctx.ob("get_best_move:alpha-other-def", e == ("const", neg_inf), b.where(dloc), "alpha is otherwise only reset to -infinity at the start of a depth (`%s`)" % show_expr(e, b))
     # R18.6 PV head
